@@ -602,7 +602,6 @@ func packetConnLimitSiblings(c *an.Check) {
 	}())
 }
 
-
 // sendMsgAlwaysFrames: SendMsg reports success only after it wrote a frame — also for a message that marshals to zero
 // bytes (an empty message is a message: peers use it to say "my set is now empty").
 func sendMsgAlwaysFrames(c *an.Check) {
